@@ -1,0 +1,226 @@
+//go:build verif
+
+package bluemonday
+
+// Verification hooks. Compiled only with `-tags verif`; they add read-only views
+// of unexported state and thin wrappers around unexported functions so that an
+// external harness can compare them with a formal model. Nothing here changes
+// behaviour, and nothing here is built without the tag.
+
+import (
+	"fmt"
+	"regexp"
+	"sort"
+	"strings"
+
+	"golang.org/x/net/html"
+)
+
+// VerifRegexName names a compiled regexp for VerifDump (the harness maps pointer
+// identities to stable numbers).
+type VerifRegexName func(*regexp.Regexp) string
+
+func verifAttrPolicies(aps []attrPolicy, name VerifRegexName) string {
+	parts := make([]string, len(aps))
+	for i, ap := range aps {
+		if ap.regexp == nil {
+			parts[i] = "*"
+		} else {
+			parts[i] = name(ap.regexp)
+		}
+	}
+	return strings.Join(parts, ",")
+}
+
+func verifAttrRules(m map[string][]attrPolicy, name VerifRegexName) string {
+	keys := make([]string, 0, len(m))
+	for k := range m {
+		keys = append(keys, k)
+	}
+	sort.Strings(keys)
+	parts := make([]string, len(keys))
+	for i, k := range keys {
+		parts[i] = fmt.Sprintf("%x=[%s]", k, verifAttrPolicies(m[k], name))
+	}
+	return "{" + strings.Join(parts, ";") + "}"
+}
+
+func verifStylePolicies(sps []stylePolicy, name VerifRegexName) string {
+	parts := make([]string, len(sps))
+	for i, sp := range sps {
+		switch {
+		case sp.handler != nil:
+			parts[i] = "h"
+		case len(sp.enum) > 0:
+			es := make([]string, len(sp.enum))
+			for j, e := range sp.enum {
+				es[j] = fmt.Sprintf("%x", e)
+			}
+			parts[i] = "e(" + strings.Join(es, "|") + ")"
+		case sp.regexp != nil:
+			parts[i] = name(sp.regexp)
+		default:
+			parts[i] = "0"
+		}
+	}
+	return strings.Join(parts, ",")
+}
+
+func verifStyleRules(m map[string][]stylePolicy, name VerifRegexName) string {
+	keys := make([]string, 0, len(m))
+	for k := range m {
+		keys = append(keys, k)
+	}
+	sort.Strings(keys)
+	parts := make([]string, len(keys))
+	for i, k := range keys {
+		parts[i] = fmt.Sprintf("%x=[%s]", k, verifStylePolicies(m[k], name))
+	}
+	return "{" + strings.Join(parts, ";") + "}"
+}
+
+func verifSet(m map[string]struct{}) string {
+	keys := make([]string, 0, len(m))
+	for k := range m {
+		keys = append(keys, fmt.Sprintf("%x", k))
+	}
+	sort.Strings(keys)
+	return strings.Join(keys, ",")
+}
+
+func verifBool(b bool) string {
+	if b {
+		return "1"
+	}
+	return "0"
+}
+
+// VerifDump renders every field of the policy canonically: maps sorted by key,
+// regexps named by the callback, handlers and URL callbacks reduced to their
+// presence / count.
+func (p *Policy) VerifDump(name VerifRegexName) string {
+	var b strings.Builder
+	fmt.Fprintf(&b, "flags=%s%s%s%s%s%s%s%s%s%s%s%s%s",
+		verifBool(p.addSpaces), verifBool(p.requireNoFollow), verifBool(p.requireNoFollowFullyQualifiedLinks),
+		verifBool(p.requireNoReferrer), verifBool(p.requireNoReferrerFullyQualifiedLinks),
+		verifBool(p.requireCrossOriginAnonymous), verifBool(p.addTargetBlankToFullyQualifiedLinks),
+		verifBool(p.requireParseableURLs), verifBool(p.allowRelativeURLs), verifBool(p.allowDataAttributes),
+		verifBool(p.allowComments), verifBool(p.allowUnsafe), verifBool(p.srcRewriter != nil))
+	if p.requireSandboxOnIFrame == nil {
+		b.WriteString(" sandbox=nil")
+	} else {
+		ks := make([]string, 0)
+		for k, v := range p.requireSandboxOnIFrame {
+			if v {
+				ks = append(ks, fmt.Sprintf("%x", k))
+			}
+		}
+		sort.Strings(ks)
+		b.WriteString(" sandbox=[" + strings.Join(ks, ",") + "]")
+	}
+	// elements
+	{
+		keys := make([]string, 0, len(p.elsAndAttrs))
+		for k := range p.elsAndAttrs {
+			keys = append(keys, k)
+		}
+		sort.Strings(keys)
+		b.WriteString(" els=")
+		for _, k := range keys {
+			fmt.Fprintf(&b, "%x:%s ", k, verifAttrRules(p.elsAndAttrs[k], name))
+		}
+	}
+	{
+		parts := make([]string, 0, len(p.elsMatchingAndAttrs))
+		for r, m := range p.elsMatchingAndAttrs {
+			parts = append(parts, name(r)+":"+verifAttrRules(m, name))
+		}
+		sort.Strings(parts)
+		b.WriteString(" elsm=" + strings.Join(parts, " "))
+	}
+	b.WriteString(" gattrs=" + verifAttrRules(p.globalAttrs, name))
+	{
+		keys := make([]string, 0, len(p.elsAndStyles))
+		for k := range p.elsAndStyles {
+			keys = append(keys, k)
+		}
+		sort.Strings(keys)
+		b.WriteString(" styles=")
+		for _, k := range keys {
+			fmt.Fprintf(&b, "%x:%s ", k, verifStyleRules(p.elsAndStyles[k], name))
+		}
+	}
+	{
+		parts := make([]string, 0, len(p.elsMatchingAndStyles))
+		for r, m := range p.elsMatchingAndStyles {
+			parts = append(parts, name(r)+":"+verifStyleRules(m, name))
+		}
+		sort.Strings(parts)
+		b.WriteString(" stylesm=" + strings.Join(parts, " "))
+	}
+	b.WriteString(" gstyles=" + verifStyleRules(p.globalStyles, name))
+	{
+		keys := make([]string, 0, len(p.allowURLSchemes))
+		for k := range p.allowURLSchemes {
+			keys = append(keys, k)
+		}
+		sort.Strings(keys)
+		b.WriteString(" schemes=")
+		for _, k := range keys {
+			fmt.Fprintf(&b, "%x:%d,", k, len(p.allowURLSchemes[k]))
+		}
+	}
+	{
+		parts := make([]string, len(p.allowURLSchemeRegexps))
+		for i, r := range p.allowURLSchemeRegexps {
+			parts[i] = name(r)
+		}
+		b.WriteString(" schemere=" + strings.Join(parts, ","))
+	}
+	b.WriteString(" noattrs=" + verifSet(p.setOfElementsAllowedWithoutAttrs))
+	{
+		parts := make([]string, len(p.setOfElementsMatchingAllowedWithoutAttrs))
+		for i, r := range p.setOfElementsMatchingAllowedWithoutAttrs {
+			parts[i] = name(r)
+		}
+		b.WriteString(" noattrsm=" + strings.Join(parts, ","))
+	}
+	b.WriteString(" skip=" + verifSet(p.setOfElementsToSkipContent))
+	return b.String()
+}
+
+// VerifValidURL exposes validURL.
+func (p *Policy) VerifValidURL(raw string) (string, bool) { return p.validURL(raw) }
+
+// VerifSanitizeStyles exposes sanitizeStyles on a style value.
+func (p *Policy) VerifSanitizeStyles(val, element string) string {
+	return p.sanitizeStyles(html.Attribute{Key: "style", Val: val}, element).Val
+}
+
+// VerifSanitizeAttrs exposes sanitizeAttrs with the element's own rule lookup.
+func (p *Policy) VerifSanitizeAttrs(element string, attrs []html.Attribute) ([]html.Attribute, bool) {
+	aps, ok := p.elsAndAttrs[element]
+	if !ok {
+		aa, matched := p.matchRegex(element)
+		if !matched {
+			return nil, false
+		}
+		aps = aa
+	}
+	return p.sanitizeAttrs(element, attrs, aps), true
+}
+
+// VerifRemoveUnicode exposes removeUnicode.
+func VerifRemoveUnicode(s string) string { return removeUnicode(s) }
+
+// VerifIsDataAttribute exposes isDataAttribute.
+func VerifIsDataAttribute(s string) bool { return isDataAttribute(s) }
+
+// VerifLinkable exposes linkable.
+func VerifLinkable(s string) bool { return linkable(s) }
+
+// VerifNormaliseElementName exposes normaliseElementName.
+func VerifNormaliseElementName(s string) string { return normaliseElementName(s) }
+
+// VerifAllowNoAttrs exposes allowNoAttrs.
+func (p *Policy) VerifAllowNoAttrs(element string) bool { return p.allowNoAttrs(element) }
